@@ -27,6 +27,7 @@ BASE_CFG = {
     "reuse_bias": True,
     "shape": "diamond",
     "extend_then_ordered_window_prob": 0.25,
+    "narrowing_tails": True,
     "shape_prob": 0.65,  # the rest are plain chains, where extend -> ordered window on the fresh column is frequent
 }
 
